@@ -688,6 +688,12 @@ func ruleScFlags(w *World, r *Report) {
 						return "parentor"
 					}
 					return "parentnotor"
+				case "isBoolOpNode":
+					// isBoolOpNode(n) == isAndOpNode(n) || isOrOpNode(n)   (R-PAIRBOOL)
+					if !fc.Truth {
+						return "parentnotbool"
+					}
+					return "parentbool"
 				}
 			}
 		}
@@ -729,7 +735,31 @@ func ruleScFlags(w *World, r *Report) {
 			labels, bad := labelsAt(st.Block(), i)
 			if st.Val == i {
 				nNoJump++
-				good := len(bad) == 0 && (labels["noparent"] || (labels["parentnotand"] && labels["parentnotor"]))
+				noJumpOK := func(l map[string]bool) bool {
+					return l["noparent"] || (l["parentnotand"] && l["parentnotor"]) || l["parentnotbool"]
+				}
+				good := len(bad) == 0 && noJumpOK(labels)
+				if !good && len(bad) == 0 && len(st.Block().Preds) > 1 {
+					// `pIdx == -1 || !isBoolOpNode(p)`: the reason may differ per incoming edge
+					good = true
+					for _, pred := range st.Block().Preds {
+						l := map[string]bool{}
+						for k := range labels {
+							l[k] = true
+						}
+						for _, fc := range append(factsAt(pred), factsAtEdgeTo(pred, st.Block())...) {
+							c := classify(fc, i)
+							if strings.HasPrefix(c, "!node") {
+								good = false
+							} else if c != "" {
+								l[c] = true
+							}
+						}
+						if !noJumpOK(l) {
+							good = false
+						}
+					}
+				}
 				r.Check(good, rule, pos, name, "f[i] = i (no short-circuit target)", "only when the node has no parent, or its parent is neither and nor or", "a node is denied a short-circuit target for another reason ("+strings.Join(append(bad, keysOf(labels)...), "; ")+"): once it decides its parent, the remaining operands are still evaluated")
 				return
 			}
